@@ -200,6 +200,57 @@ def slot_oracle(chk, rng, rounds):
                              "hy_compile(hy.read_many(src)); ast.walk Names")
 
 
+STMT_SHAPES = [
+    # (text with %(v)s = the leaf prefix, leaves)
+    ("(do (%(v)sa) (%(v)sb))", ["a", "b"]),
+    ("(if (%(v)sa) (do (%(v)sb) (%(v)sc)) (%(v)sd))", ["a", "b", "c", "d"]),
+    ("(setv zz (%(v)sa))", ["a"]),
+    ("(do (setv zz (%(v)sa)) (%(v)sb))", ["a", "b"]),
+]
+NARY_CONTEXTS = ["%s", "(r %s)", "[q #* %s]", "(setv x %s)", "(defn f [] %s)", "(if (c) %s (e))"]
+
+
+def nary_bool_oracle(chk, rng, thorough):
+    """and / or with 3-5 operands (6 in the thorough tier): a statement-producing operand in every position (one, or two
+    of them), every other operand a call of a uniquely named function; in several contexts.  Every leaf must occur in the
+    compiled code: the and/or machine folds the ordinary operands that follow a statement-producing one into the
+    assignment inside the generated `if`."""
+    cases = []
+    for op in ("and", "or"):
+        for n in range(3, 7 if thorough else 6):
+            positions = [(i,) for i in range(n)] + [(i, j) for i in range(n) for j in range(i + 1, n)]
+            for pos in positions:
+                if len(pos) == 2 and not thorough and rng.random() < 0.5:
+                    continue
+                shapes = STMT_SHAPES if (thorough or len(pos) == 1) else [rng.choice(STMT_SHAPES)]
+                for shape, sl in shapes:
+                    ctxs = NARY_CONTEXTS if (thorough or (len(pos) == 1 and n <= 4)) else [rng.choice(NARY_CONTEXTS)]
+                    for ctx in ctxs:
+                        ops, leaves = [], []
+                        for i in range(n):
+                            v = "v%d" % i
+                            if i in pos:
+                                ops.append(shape % {"v": v})
+                                leaves += [v + x for x in sl]
+                            else:
+                                ops.append("(%s)" % v)
+                                leaves.append(v)
+                        cases.append((ctx % ("(%s %s)" % (op, " ".join(ops))), leaves, n, pos))
+    for src, leaves, n, pos in cases:
+        r = compile_src(src)
+        chk.count("nary-bool:%s:arity %d:%d statement operand(s)" % (r[0], n, len(pos)))
+        chk.case("N:" + src, nontrivial=(r[0] == "OK"), sample={"program": src, "outcome": r[0]} if (n == 4 and pos == (1,) and src.startswith("(r (and (v0) (do")) else None)
+        if r[0] != "OK":
+            chk.fail("nary-bool-does-not-compile", {"program": src}, r[1], "a Python AST", "hy_compile(hy.read_many(src))")
+            continue
+        missing = [v for v in leaves if v not in names_loaded(r[1])]
+        if missing:
+            chk.fail("subform-dropped", {"program": src, "missing": missing},
+                     "compiled code never mentions %s: %s" % (missing, ast.unparse(r[1])[:240]),
+                     "every evaluated subform appears in the compiled code, or a Hy error",
+                     "hy_compile(hy.read_many(src)); ast.walk Names")
+
+
 BARE_NAME_PROBES = ["(do (do (setv zz 1) v0) 1)", "(do (if a (do (f) v0) v1) 2)", "(while c (do (f) v0))"]
 
 
@@ -222,9 +273,13 @@ def run(chk):
     thorough = chk.tier == "thorough"
     collector_correspondence(chk, chk.rng, 6000 if thorough else 800)
     slot_oracle(chk, chk.rng, 60 if thorough else 8)
+    nary_bool_oracle(chk, chk.rng, thorough)
     bare_name_probe(chk)
     chk.rule = ("(a) argument lists of length 0-5 mixing forms, #*, #**, keywords in list/set/tuple displays, calls and dicts: "
                 "model vs hy_compile slot structure or error; (b) %d templates of core forms, every evaluated position filled "
                 "with a unique variable, one position per round replaced by #*, #** or a statement-producing do: each variable "
-                "must occur in the compiled AST unless compilation raised a Hy error; non-trivial = compiled / list of >= 2"
+                "must occur in the compiled AST unless compilation raised a Hy error; (c) and/or of arity 3-5 with one or two "
+                "statement-producing operands (do, if with statements, setv) in every position, the other operands unique "
+                "calls, in six contexts (bare, call argument, #* in a display, setv value, function body, if branch): every "
+                "leaf must occur in the compiled AST; non-trivial = compiled / list of >= 2"
                 % len(TEMPLATES))
